@@ -151,6 +151,7 @@ def rule_a(ck, u, eng):
         ck.analysed['paths'] += len(ps)
         bad = None
         exc = 0
+        broken_in = None
         f = u.fn(fn)
         for p in ps:
             facts = eng.path_facts(p)
@@ -161,7 +162,15 @@ def rule_a(ck, u, eng):
                 if fn == 'parse_integer_' and e.inloop and backward_loop_ok(u, f, e):
                     exc += 1
                     continue
+                if getattr(e, 'frame', None):
+                    # a read inside a helper the engine looked through: the exception table above describes the loop
+                    # where it stands in parse_integer_ itself and cannot be matched there
+                    broken_in = e.frame
+                    continue
                 bad = 's[%s] at %s is not guarded by index < n' % (fmt(ix), e.where())
+        if bad is None and broken_in:
+            ck.broken('C20.a', fn, cast.where(f), 'a read of s[] that the path facts do not bound lies in the helper %s; the backward-loop exception is described for %s itself' % (broken_in.split('@')[0], fn))
+            continue
         ck.verdict(bad is None, 'C20.a', fn, cast.where(f),
                    'forward scans read s[j] only under j < n%s' % ('; the backward digit loop only decrements j from a position <= n (exception table: relies on the scan\'s exit position)' if exc else '')
                    if bad is None else bad)
